@@ -1064,6 +1064,10 @@ static void setup_menus(void)
 		menu_add(RS_CUT_ERR);
 		menu_add(RS_DUP);
 		menu_add(RS_TIMEOUT);
+		/* the three ways a socket that learned router keys under version 1 comes to speak version 0 */
+		menu_add(RS_ERR_UNSUPP_LOWER);
+		menu_add(RS_V0_ANSWER);
+		menu_add(RS_CLOSE);
 		OPEN_MENU[NOPEN++] = O_FAIL;
 		OPEN_MENU[NOPEN++] = O_FAIL_SLOW;
 		IDLE_MENU[NIDLE++] = I_STOP;
